@@ -31,6 +31,22 @@ claim("C16", E1,
   "Trusted: the harness queue model and executor (simcore::exec). Assumes spurious polls and dropping pending send futures are legal API use. Bounds: cap 1-3/unbounded, <=3 senders, <=12 items.",
   "DESIGN.md §5 C16")
 
+claim("C14", "e1_sink",
+  "deterministic simulation: seeded readiness/flush/close/init-future schedules and task interleavings around the real sinktools adaptors (65 pipeline-shape scenarios incl. error-injection configurations), per-sink reference sequences + Sink-protocol monitor + init<=1 + quiescence lost-wake-up oracle",
+  "Seeded exploration of sink readiness patterns, lazy-init timing, two-task interleavings of LazySinkSource halves, spurious polls and (separately, with a narrowed oracle) injected sink errors against the real adaptors; replayable decision traces.",
+  "Trusted: SimSink/SimFuture stubs, protocol monitor (lenient: a Pending after Ready(Ok) does not revoke the credit), reference routing functions. 'Delivered' = accepted by the terminal sink's start_send. Two recorded known findings (demux_map_lazy new-sink start_send without poll_ready; LazySinkHalf forwarding to a never-readied inner sink) are printed as KNOWN-FINDING.",
+  "DESIGN.md §5 C14, §13")
+claim("C15", "e1_sink",
+  "deterministic simulation: seeded per-poll Ready/Pending/None scripts of 1-4 tagged sources merged by the real MergeSource/TaggedSource (reached through ConnectedTagged::from_defn, no sockets), consumer task with spurious polls; interleaving/FIFO/no-loss/end/fairness oracles",
+  "Seeded exploration of source readiness patterns and poll schedules against the real merge code; fairness stated on outputs and polls-per-call, not on time.",
+  "Trusted: scripted SimStream sources and the registry-based Connected implementation. multi_connection.rs (real listeners, no seam) is not run.",
+  "DESIGN.md §5 C15, §13")
+claim("C12", "e1_push",
+  "deterministic simulation: seeded Pending answers of every downstream's poll_ready/poll_finalize, pull-side pendings through the real SendPush driver and a hand driver, async shapes on the simulated executor; per-downstream reference sequences + push-protocol monitor",
+  "Seeded exploration of downstream readiness patterns around the real dfir_pipes push combinators (catalogue of monomorphic shapes incl. fan-out compositions and multi-epoch persist); replayable decision traces.",
+  "Trusted: SimPush stub + protocol monitor, reference semantics written with std iterators. Keyed accumulators compared as multisets.",
+  "DESIGN.md §5 C12, §13")
+
 NOT_BUILT = {}  # pid -> reason while its check is not built yet
 
 ALL = ["C%02d" % i for i in range(1, 43)]
@@ -68,6 +84,8 @@ def main():
     for pid, c in CLAIMED.items():
         engines.setdefault(c["engine"], []).append(pid)
     ENG_KIND = {
+      "e1_sink": "poll-level deterministic simulator for sinktools adaptors and MergeSource",
+      "e1_push": "poll-level deterministic simulator for dfir_pipes push combinators",
       "e1_pollsim": "poll-level deterministic simulator: scripted Pending/Ready/wake schedules around real dfir_pipes/sinktools/MergeSource/unsync-mpsc code",
     }
     m = {
